@@ -154,12 +154,15 @@ def act_atoms():
                       ("extcommunity_soo", "SOO1", "SOO2")):
         res += [[fld, {"set": [a]}], [fld, {"set": [a, b]}], [fld, {"set": []}], [fld, {"add": [a]}], [fld, {"add": [a, b]}],
                 [fld, {"remove": [a]}], [fld, {"remove": [a, b]}], [fld, {"add": [a], "remove": [b]}],
-                [fld, {"set": [a], "add": [b]}], [fld, {"set": [a], "remove": [b]}]]
+                [fld, {"set": [a], "add": [b]}], [fld, {"set": [a], "remove": [b]}],
+                [fld, {"set": [], "add": [a]}], [fld, {"set": [], "remove": [b]}], [fld, {"set": [], "add": [a], "remove": [b]}]]
     res += [["community", {"remove": ["CBG"]}], ["community", {"add": ["CBA", "CBG"]}]]
     res += [["extcommunity", {"set": ["RT1"]}], ["extcommunity", {"set": ["RT1", "SOO1"]}], ["extcommunity", {"set": ["SOO1", "RT1"]}],
             ["extcommunity", {"set": ["SOO2"]}], ["extcommunity", {"set": []}], ["extcommunity", {"add": ["RT1"]}],
             ["extcommunity", {"add": ["RT2", "SOO2"]}], ["extcommunity", {"remove": ["RT1"]}], ["extcommunity", {"remove": ["SOO1"]}],
-            ["extcommunity", {"add": ["RT1"], "remove": ["SOO1"]}], ["extcommunity", {"set": ["RT1"], "add": ["RT2"]}]]
+            ["extcommunity", {"add": ["RT1"], "remove": ["SOO1"]}], ["extcommunity", {"set": ["RT1"], "add": ["RT2"]}],
+            ["extcommunity", {"set": ["RT1"], "remove": ["RT2"]}], ["extcommunity", {"set": [], "add": ["RT1"]}],
+            ["extcommunity", {"set": [], "remove": ["RT1"]}], ["extcommunity", {"set": [], "add": ["SOO1"], "remove": ["RT1"]}]]
     res += [["as_path", {"set": [65000, 65001]}], ["as_path", {"set": []}], ["as_path", {"prepend": [65000]}],
             ["as_path", {"prepend": [65000, "65000"]}], ["as_path", {"delete": [65001]}], ["as_path", {"expand": [65000]}],
             ["as_path", {"expand_last_as": 3}], ["as_path", {"prepend": [65000], "delete": [65001, 65002]}],
